@@ -389,6 +389,7 @@ func (vc *VC) syncCall(callee *ssa.Function, c *ssa.CallCommon, st *State, reach
 		if gk, ref, ok := vc.guardRecv(c.Args[0]); ok {
 			vc.assume(reach, app(vc.doneFn(gk), ref))
 		}
+		vc.onceEstablished(c, st, reach) // onceinv.go (x-c17): once-clauses of the registered literal
 	case "(*sync.Mutex).Lock", "(*sync.RWMutex).Lock":
 		if gk, ref, ok := vc.guardRecv(c.Args[0]); ok {
 			l := vc.get(st, lockVar(gk), "(Array Int Bool)")
